@@ -127,6 +127,7 @@ def run(facts, chk, tier, only=None):
     chk.guard('C10.func', 'C10.func:weed-filter:run', lambda: tableops.check_weed_filter(facts, chk, 'C10.func', tier))
     # .. and through ska::main() for a 64- and a 128-bit file (each filter option of ska weed reaches the parameter it names)
     from . import cli_e2e
+    chk.guard('C10.func', 'C10.func:wide:run', lambda: tableops.check_wide(facts, chk, 'C10.func', tier))
     chk.guard('C10.cli', 'C10.cli:run0', lambda: cli_e2e.check_weed(facts, chk, 'C10.cli', tier))
     # a sequence through saved files: build -> weed (everything removed) -> merge, with the real generic_modes::merge over virtual .skf files
     from . import e2e2
